@@ -25,7 +25,16 @@ static PieceCount toPC(const std::vector<int>& pcs) {
 struct Val { int kind; int n; };   // kind: +1 win in n moves, -1 loss in n moves, 0 draw
 static Val toVal(int s) { if (s == 0) return {0, 0}; if (s > 0) return {1, (M0 - s) / 2}; return {-1, (M0 + s - 1) / 2}; }
 
-static void checkRoot(sd::Env& env, TBGenerator<VectorStorage>& gen, Position& pos, bool is3men, const std::string& cls) {
+static void checkRoot(sd::Env& env, TBGenerator<VectorStorage>& gen, Position& pos, bool is3men, const std::string& clsIn, int maxTimeMs = -1);
+static unsigned long long rootNo = 0;
+/** First the search without any limit (it builds the table if need be), then - for every 4th root - the same root again with a time budget too
+ *  short to generate a table (< 3 s): the knowledge already resident must be kept ("... and keeps them"). */
+static void checkRootTwice(sd::Env& env, TBGenerator<VectorStorage>& gen, Position& pos, bool is3men, const std::string& cls) {
+    checkRoot(env, gen, pos, is3men, cls);
+    if ((rootNo++ & 3) == 0) { checkRoot(env, gen, pos, is3men, cls + "+timed", 1500); R.count("timed_second_searches"); }
+}
+static void checkRoot(sd::Env& env, TBGenerator<VectorStorage>& gen, Position& pos, bool is3men, const std::string& clsIn, int maxTimeMs) {
+    std::string cls = clsIn; { size_t p = cls.find('+'); if (p != std::string::npos) cls = cls.substr(0, p); }
     std::string fen = TextIO::toFEN(pos);
     W->crumb(cls + " " + fen);
     int s;
@@ -36,9 +45,10 @@ static void checkRoot(sd::Env& env, TBGenerator<VectorStorage>& gen, Position& p
     int hmc = pos.getHalfMoveClock();
     R.count("states");
     sd::Params p; p.maxDepth = -1; p.maxNodes = -1; p.stopAfterPolls = W->args.getInt("polls", 3);
+    if (maxTimeMs > 0) { p.minTimeMs = maxTimeMs; p.maxTimeMs = maxTimeMs; }
     sd::Outcome o = sd::run(env, pos, p);
     R.count("transitions", (long long)o.lines.size());
-    auto rep = [&]() { return "{\"kind\":\"input\",\"class\":\"" + cls + "\",\"fen\":\"" + jsonEsc(fen) + "\"}"; };
+    auto rep = [&]() { return "{\"kind\":\"input\",\"class\":\"" + clsIn + "\",\"fen\":\"" + jsonEsc(fen) + "\"}"; };
     if (o.lines.empty()) { R.violation("no-pv-line", cls + " " + fen, rep()); return; }
     // final result = last line of the deepest completed iteration (bound lines and lines of an interrupted iteration describe
     // single root moves, not the root: e.g. "mate -7 upperbound" for an inferior defence in a position whose best defence
@@ -54,13 +64,15 @@ static void checkRoot(sd::Env& env, TBGenerator<VectorStorage>& gen, Position& p
     int sa = 0; bool fa = gen.probeDTM(after, 0, sa);
     Val va = toVal(sa);
     bool completable = v.kind > 0 ? hmc + (2 * v.n - 1) <= 100 : v.kind < 0 ? hmc + 2 * v.n <= 100 : true;
-    std::string desc = cls + " " + fen + " exact=" + (v.kind == 0 ? "draw" : (v.kind > 0 ? "win in " : "loss in ") + std::to_string(v.n)) +
+    std::string desc = clsIn + " " + fen + " exact=" + (v.kind == 0 ? "draw" : (v.kind > 0 ? "win in " : "loss in ") + std::to_string(v.n)) +
                        " reported=" + (fin.isMate ? "mate " : "cp ") + std::to_string(fin.score) + " best=" + TextIO::moveToUCIString(o.best);
     if (v.kind != 0) R.count("nontrivial");
     R.outcome(std::string(v.kind == 0 ? "draw" : v.kind > 0 ? "win" : "loss") + (completable ? "" : "-not-completable") + (fin.isMate ? ":mate" : ":cp"));
     if (v.kind == 0) {
         if (fin.isMate) R.violation("mate-score-in-drawn-position", desc, rep());
-        if (fa && va.kind > 0) R.violation("draw-turned-into-loss", desc + " successor is won for the opponent in " + std::to_string(va.n), rep());
+        // the opponent's win in the successor only counts if it can still be completed before the 50-move limit (at clock 99 any quiet move draws)
+        int hmcAfter = after.getHalfMoveClock();
+        if (fa && va.kind > 0 && hmcAfter + (2 * va.n - 1) <= 100) R.violation("draw-turned-into-loss", desc + " successor is won for the opponent in " + std::to_string(va.n), rep());
     } else if (completable) {
         if (!fin.isMate || fin.upper || fin.lower || fin.score != (v.kind > 0 ? v.n : -v.n)) R.violation("inexact-mate-distance", desc, rep());
         if (v.kind > 0) {
@@ -106,7 +118,9 @@ int main(int argc, char** argv) {
         std::sort(pcs.begin(), pcs.end());
         VectorStorage vs; TBGenerator<VectorStorage> gen(vs, toPC(pcs)); RelaxedShared<S64> inf(-1); gen.generate(inf, false);
         sd::Env env(1024 * 1024);
-        checkRoot(env, gen, pos, pcs.size() == 1, jsonGetStr(txt, "class"));
+        std::string rc = jsonGetStr(txt, "class");
+        if (rc.find("+timed") != std::string::npos) { Result keep = R; checkRoot(env, gen, pos, pcs.size() == 1, rc.substr(0, rc.find('+'))); R = keep; checkRoot(env, gen, pos, pcs.size() == 1, rc, 1500); }
+        else checkRoot(env, gen, pos, pcs.size() == 1, rc);
         w.finish(R); return 0;
     }
     for (auto& pcs : classes) {
@@ -135,7 +149,7 @@ int main(int argc, char** argv) {
                 int mr = (int)W->args.getInt("mrange", 2);
                 for (int m = -mr; m <= mr; m++) { int h = 100 - plies - m; if (h >= 0 && h <= 99) hs.insert(h); }
             }
-            for (int h : hs) { pos.setHalfMoveClock(h); checkRoot(env, gen, pos, pcs.size() == 1, cls); }
+            for (int h : hs) { pos.setHalfMoveClock(h); checkRootTwice(env, gen, pos, pcs.size() == 1, cls); }
         }, c, [&]() { return w.dl.hit(); });
         if (w.dl.hit()) { R.exhaustive = false; break; }
         if (R.samples.size() < 3) R.sampleStr(cls);
